@@ -67,10 +67,14 @@ func (s SCTP) SerializeTo(b gopacket.SerializeBuffer, opts gopacket.SerializeOpt
 	binary.BigEndian.PutUint16(bytes[2:4], uint16(s.DstPort))
 	binary.BigEndian.PutUint32(bytes[4:8], s.VerificationTag)
 	if opts.ComputeChecksums {
+		// The checksum is computed over the packet with a zero checksum field.
+		clear(bytes[8:12])
 		// Note:  MakeTable(Castagnoli) actually only creates the table once, then
 		// passes back a singleton on every other call, so this shouldn't cause
 		// excessive memory allocation.
 		binary.LittleEndian.PutUint32(bytes[8:12], crc32.Checksum(b.Bytes(), crc32.MakeTable(crc32.Castagnoli)))
+	} else {
+		binary.BigEndian.PutUint32(bytes[8:12], s.Checksum)
 	}
 	return nil
 }
